@@ -14,7 +14,83 @@ use std::panic::{catch_unwind, AssertUnwindSafe};
 pub const NAMES: &[&str] = &[R1, R2, R3, R4I, R4J, R4, R4K];
 const SPAN_ROUTES: &[&str] = &[R1, R2, R3, R4I, R4J];
 
+/// Real `toml::Spanned` in std's hashed and ordered collections: wrapping must not change which
+/// elements a set keeps or which keys a map finds (Eq / Ord / Hash / Borrow of `Spanned` look at the
+/// value only).
+#[derive(serde::Deserialize, Debug)]
+struct HashedSpanned {
+    tags: std::collections::HashSet<toml::Spanned<String>>,
+    ordered: std::collections::BTreeSet<toml::Spanned<String>>,
+    m: std::collections::HashMap<toml::Spanned<String>, i64>,
+}
+#[derive(serde::Deserialize, Debug)]
+struct HashedPlain {
+    tags: std::collections::HashSet<String>,
+    ordered: std::collections::BTreeSet<String>,
+    m: std::collections::HashMap<String, i64>,
+}
+
+fn hashed_collections(sc: &Scenario, out: &mut RunOut) {
+    let text = &sc.doc.as_ref().unwrap().text;
+    out.note(text);
+    let a = catch_unwind(AssertUnwindSafe(|| toml::from_str::<HashedSpanned>(text)));
+    let b = catch_unwind(AssertUnwindSafe(|| toml::from_str::<HashedPlain>(text)));
+    out.execs += 2;
+    out.stats.inc("oracle.spanned_in_hashed_collections");
+    match (a, b) {
+        (Ok(Ok(a)), Ok(Ok(b))) => {
+            let mut problems = Vec::new();
+            if a.tags.len() != b.tags.len() {
+                problems.push(format!("HashSet<Spanned<String>> keeps {} elements, HashSet<String> keeps {}", a.tags.len(), b.tags.len()));
+            }
+            if a.ordered.len() != b.ordered.len() {
+                problems.push(format!("BTreeSet<Spanned<String>> keeps {} elements, BTreeSet<String> keeps {}", a.ordered.len(), b.ordered.len()));
+            }
+            if a.m.len() != b.m.len() {
+                problems.push(format!("HashMap<Spanned<String>, _> has {} entries, HashMap<String, _> has {}", a.m.len(), b.m.len()));
+            }
+            for (k, v) in &b.m {
+                if a.m.get(k.as_str()) != Some(v) {
+                    problems.push(format!("HashMap<Spanned<String>, _>::get({k:?}) = {:?}, the plain map has {v}", a.m.get(k.as_str())));
+                    break;
+                }
+            }
+            for t in &b.tags {
+                if !a.tags.contains(t.as_str()) {
+                    problems.push(format!("HashSet<Spanned<String>>::contains({t:?}) is false"));
+                    break;
+                }
+            }
+            if !problems.is_empty() {
+                out.violate("C14/5", "C14/spanned-changes-value/collections".into(), format!("wrapping in Spanned changes what a std collection holds: {}\n--- text ---\n{text}", problems.join("; ")));
+            }
+        }
+        (Ok(Err(_)), Ok(Err(_))) => {}
+        (Ok(x), Ok(y)) => out.violate("C14/5", "C14/spanned-changes-verdict/collections".into(), format!("with Spanned: {:?}; without: {:?}\n--- text ---\n{text}", x.map(|_| "Ok"), y.map(|_| "Ok"))),
+        _ => out.violate("C14/5", "C14/panic/collections".into(), format!("decoding panicked\n--- text ---\n{text}")),
+    }
+}
+
 pub fn generate(rng: &mut Rng, _tier: &str) -> Scenario {
+    if rng.chance(1, 40) {
+        // strings with duplicates in arrays, and a table, for real Spanned elements / keys in std collections
+        let pool = ["a", "b", "serde", "é", "k 2", "", "a"];
+        let n = 1 + rng.below(7);
+        let items: Vec<String> = (0..n).map(|_| format!("{:?}", rng.pick(&pool))).collect();
+        let mut keys: Vec<&str> = Vec::new();
+        for _ in 0..rng.below(5) {
+            let k = *rng.pick(&pool);
+            if !keys.contains(&k) {
+                keys.push(k);
+            }
+        }
+        let sep = if rng.chance(1, 2) { ",\n  " } else { ", " };
+        let body: Vec<String> = keys.iter().enumerate().map(|(i, k)| format!("{k:?} = {i}")).collect();
+        let text = format!("tags = [{}]\nordered = [ {} ]\n[m]\n{}\n", items.join(sep), items.join(" , "), body.join("\n"));
+        let mut sc = Scenario::new("C14", "H", Ty::Unit);
+        sc.doc = Some(DocSpec { text, tree: None, spans: vec![], source: "collections".into(), plan: None, headers: vec![] });
+        return sc;
+    }
     let (doc, tree) = gen_doc(rng);
     let spanned = *rng.pick(&[100u32, 100, 60, 25, 10]);
     let cfg = InferCfg { mismatch: if rng.chance(1, 8) { 6 } else { 0 }, spanned, any: *rng.pick(&[0, 0, 10]) };
@@ -505,6 +581,10 @@ fn contains_spanned(v: &Val) -> bool {
 
 pub fn execute(sc: &Scenario, verbose: bool) -> RunOut {
     let mut out = RunOut::default();
+    if sc.workload == "H" {
+        hashed_collections(sc, &mut out);
+        return out;
+    }
     let ty = &sc.ty;
     let doc = sc.doc.as_ref().expect("C14 without document");
     let text = &doc.text;
